@@ -27,7 +27,7 @@ from ..tunnelsim import World
 PID = "C05"
 LEVEL = "exploration"
 RULE = ("Hypothesis-drawn operation lists (<= 25 ops quick / 60 thorough) over a world of 4-6 tunnel nodes: open(origin, "
-        "hops) up to 6 live circuits, send/reply with tagged payloads, advance(dt) incl. > 60 s, and adversarial ops "
+        "hops) up to 6 live circuits, send/reply with tagged payloads, burst (all circuits send in the same instant), advance(dt) incl. > 60 s, and adversarial ops "
         "(unknown-id cell, forged cell for a live id, create for an id in use as exit/relay/own circuit, destroy by "
         "adjacent / non-adjacent member / outsider / spoofed source, every reason code). Non-trivial = a step executed "
         "while >= 2 circuits share a node, or an adversarial step aimed at a live id; distinct = digest of the executed "
@@ -151,6 +151,8 @@ class Run:
                 return
             c = ready[op[1] % len(ready)]
             await self.reply_and_check(c, op[2])
+        elif kind == "burst":
+            await self.burst_and_check(live, op[1])
         elif kind == "advance":
             await asyncio.sleep(op[1])
             self.executed.append(("advance", int(op[1]) // 30))
@@ -182,6 +184,38 @@ class Run:
             self.fail("J1", "exit", f"payload sent into circuit {c['n']} left at {seen_at} (expected exactly once through "
                                     f"its own exit socket to {c['dest']})")
         self.executed.append(("send", len(c["entries"])))
+
+    async def burst_and_check(self, live: list, tag: int) -> None:
+        """
+        Every live circuit sends in the same loop iteration (fresh exit sockets are still opening their transports
+        then); afterwards every payload must have left exactly once, through its own circuit's exit socket, and a reply
+        to each must reach only its own originator.
+        """
+        if len(live) < 2:
+            return
+        before = {id(t): len(t.sent) for t in self.loop.transports}
+        payloads = {}
+        for c in live:
+            payloads[c["n"]] = self.tag_payload(c, tag)
+            c["origin"].overlay.send_data(c["circuit"].hop.address, c["circuit"].circuit_id, c["dest"], ("0.0.0.0", 0),
+                                          payloads[c["n"]])
+        await asyncio.sleep(0.05)
+        for c in live:
+            mine = {id(t) for t in self.exit_transports(c)}
+            seen_at = []
+            for t in self.loop.transports:
+                for data, addr in t.sent[before.get(id(t), 0):]:
+                    if data == payloads[c["n"]]:
+                        seen_at.append((id(t) in mine, tuple(addr)))
+            c["opened"] = c["opened"] or bool(seen_at)
+            if seen_at != [(True, c["dest"])]:
+                self.fail("J1", "exit:burst", f"with {len(live)} circuits sending at the same instant, the payload of circuit "
+                                              f"{c['n']} left at {seen_at} (expected once through its own exit socket to "
+                                              f"{c['dest']})")
+        for c in live:
+            await self.reply_and_check(c, tag)
+        self.nontrivial = True
+        self.executed.append(("burst", len(live)))
 
     async def reply_and_check(self, c: dict, tag: int) -> None:
         payload = self.tag_payload(c, tag, back=True)
@@ -383,6 +417,7 @@ def _strategy(max_ops: int):
         st.tuples(st.just("open"), i, i, i).map(list),
         st.tuples(st.just("open"), i, i, i).map(list),
         st.tuples(st.just("send"), i, i).map(list),
+        st.tuples(st.just("burst"), i).map(list),
         st.tuples(st.just("reply"), i, i).map(list),
         st.tuples(st.just("advance"), st.sampled_from([0.5, 3.0, 8.0, 61.0])).map(list),
         st.tuples(st.just("unknown_cell"), i, st.integers(0, 2**32 - 1), i).map(list),
